@@ -31,6 +31,12 @@ CLAIMED = {
  "C09": ("N+F", "DESIGN.md §7 C09, §3.3",
    "Seeded exploration in virtual time (engine N): real tonic Server (Server::timeout) and Channel (Endpoint::timeout) with Request::set_timeout over the simulated network on tokio's paused clock; handler latency on a grid around D = min of the configured deadlines; oracle: the true response below D-g, CANCELLED 'Timeout expired' with elapsed in [D, D+g] above D+g, either inside the band (g = 2 ms). Engine F: the grpc-timeout value a foreign peer receives (<= 8 digits + unit, never longer, loses < 1 unit) for durations biased to unit boundaries up to 99999999 h; the server parser through hook H2 on every unit x digit-count structure (enumerated) and malformed strings.",
    "Guard band 2 ms (tokio timer wheel granularity); the grammar clauses are pure functions and are sampled structurally, not decided. Hooks: H1 (no wall-clock date header), H2 (parser wrapper)."),
+ "C13": ("N", "DESIGN.md §7 C13, §3.3",
+   "Seeded exploration in virtual time (engine N): real serve_with_incoming_shutdown with 0..3 connections and 1..6 unary/streaming/bidi calls with virtual latencies; the signal is placed at a drawn virtual instant or right after the k-th handler entry; one more connection is offered strictly after the signal; oracle: every call whose handler was entered completes at its caller with the true outcome (C02 oracle), the late connection is never served, the serve future resolves only after every accepted connection's server end was dropped (ordered by a global event sequence) and does resolve once they have.",
+   "Accepted = handler entered. Closure of connections after the last in-flight call is a probe, not judged."),
+ "C14": ("N", "DESIGN.md §7 C14, §3.3",
+   "Complete enumeration of all 726 fault scripts of length <= 5 over {connect fails, connect succeeds, established connection dropped} x {lazy, eager}, then seeded random scripts up to length 14 (engine N): real Channel (Buffer worker, Reconnect, hyper/h2 client) and Server; a call (sometimes two back-to-back) at every quiescent point; oracle = two-state reference automaton matching per-call outcome and connector invocation count one-to-one (connector failure => UNAVAILABLE to the triggering call only, eager initial failure reported immediately, success without rebuilding once reachable). Relaxed configuration: the connection dies at a drawn byte offset during a call => definite result, no hang/panic, recovery at the next quiescent calls.",
+   "Calls are issued at quiescent points, as the property states."),
  "C16": ("F", "DESIGN.md §7 C16",
    "Seeded exploration (engine F): the real GrpcWebLayer wraps a scripted inner service; grpc-web requests (binary or one base64 string) are cut at arbitrary positions incl. inside a 4-char quantum; inner gRPC responses (frames cut anywhere, arbitrary trailers incl. repeated names/obs-text, or trailers-only) are translated for Accept binary/text/absent/other; an independent grpc-web decoder checks identical message bytes + exactly one final 0x80 trailers frame listing every trailer; the (method, version, content-type) cases are checked for 405/400/pass-through-unchanged.",
    "The layer is driven as a tower::Service (no HTTP server around it)."),
